@@ -1,6 +1,7 @@
 import JSight.Basic
 import JSight.Model.Context
 import JSight.Model.Paste
+import JSight.Model.Bans
 /-!
 Line-protocol driver of the context-resolution and paste-expansion models.
 
@@ -73,6 +74,14 @@ def handle (line : String) : String :=
       | .ok f => match expand f with
         | .ok f' => "ok" ++ showForest f'
         | .error e => showPasteErr e
+  | "resolveb" :: bans :: toks =>
+    let banned : List Kind := ((bans.splitOn ",").filterMap (·.toNat?)).filterMap (Kind.all[·]?)
+    match parseToks (toks.filter (· != "")) with
+    | none => "bad-arg"
+    | some ts => match resolveBanned banned ts with
+      | .ok f => "ok" ++ showForest f
+      | .error (.notAllowed id) => "err banned " ++ toString id
+      | .error (.ctx e) => showCtxErr e
   | ["kinds"] => String.intercalate " " (Kind.all.map Kind.name)
   | _ => "bad-op"
 
